@@ -6,5 +6,5 @@ import (
 )
 
 func main() {
-	runner.Main(mirror.C20())
+	runner.Main(mirror.C20(), mirror.C11())
 }
